@@ -1,7 +1,7 @@
 """C04 — accumulation of leaf gradients across any history of backward calls"""
 import numpy as np
 import common
-from common import show_floats, show_ints
+from common import show_floats, show_ints, outcome
 import tprog, gen_dag
 tprog.ENTRIES = True        # function / Tensor method / operator / augmented operator statement, varying from call to call
 
@@ -9,13 +9,21 @@ PROP = 'C04'
 LEAN_TARGETS = ['Props.C04']
 REQUIRED_THEOREMS = ['Props.C04.leaf_gradients_accumulate', 'Props.C04.no_leftover_leak', 'Props.C04.unreachable_untouched',
                      'Props.C04.traversal_zeroes_nonleaf_operands']
+REQUIRED_THEOREMS += ['Props.C04.' + t for t in ['src_zero_check_is_model', 'src_zero_cond_is_model', 'src_root_accumulates_is_model', 'src_release_cond_is_model']]   # ties to the source read on this run
 RULE = ('histories over 2-3 shared leaves: build ops (re-using any earlier result), backward from ANY tensor (earlier roots and '
         'interior nodes included, repeated), retain_grad on interior nodes, retain_grads contexts, zeroing of leaves; after every '
         'event the gradient (or its absence) of every tensor is compared with the model. Non-trivial: >= 2 backward calls from '
-        'different roots sharing a leaf, with a non-leaf reached again after holding a gradient.')
+        'different roots sharing a leaf, with a non-leaf reached again after holding a gradient. '
+        'MODULE-TREE histories: the leaves are nn.Parameter objects held by a tree of modules (depth 3-4, shared parameters, '
+        'Sequential containers) that is RESTRUCTURED between sweeps — a parameter or a whole sub-module of a NESTED node replaced by '
+        'assignment / register_*, removed (None / plain value), added, an existing sub-tree re-attached elsewhere — after its '
+        'ancestors were listed / counted / printed / zeroed / handed to an optimizer; resets go through Module.zero_grad of any node '
+        'and through Optimizer.zero_grad of optimizers built from node.parameters() at any earlier moment; the model sees the tree '
+        'as C12 protocol lines (Synap.Modules: parameters() compared after every change) and the reset as the zeroing of exactly '
+        'the parameters reachable at that moment (for an optimizer: at its construction) that require grad.')
 EXHAUSTIVE = {'quick': False, 'thorough': False}
 ASSUMPTIONS = ['float64 programs']
-TRUSTED_BASE = ['harness/tprog.py, harness/gen_dag.py']
+TRUSTED_BASE = ['harness/tprog.py, harness/gen_dag.py', 'harness/props/c04.py: TreeModel (which leaves a reset of a module tree must reach: walk over attributes)']
 tprog.RESET_ROUTES = True
 ALLOW = ['add', 'mul', 'neg', 'sum', 'clone', 'self2', 'reshape', 'slice', 'unbind', 'stack', 'pow', 'mean',
          # nn ops that save something at forward time for their backward (probabilities, masks): a second sweep through the same node must find it intact
@@ -114,13 +122,241 @@ def gen_frozen_at_birth(rng):
     return P, evs, 8
 
 
-def to_lines(P, evs):
-    """interleave creation lines and events; after every event query all gradients"""
+class TreeModel:
+    """what the generator knows about the module tree: per module the attribute names bound to a parameter (= leaf id) or a module"""
+    def __init__(self):
+        self.mods = []
+
+    def new(self):
+        self.mods.append({}); return len(self.mods) - 1
+
+    def set(self, m, name, v):
+        self.mods[m].pop(name, None)
+        if v is not None: self.mods[m][name] = v
+
+    def reg(self, m, name, v):          # register_*: an existing entry of the same kind keeps its place
+        if name in self.mods[m] and self.mods[m][name][0] == v[0]: self.mods[m][name] = v
+        else: self.set(m, name, v)
+
+    def below(self, m):
+        seen, todo = [], [m]
+        while todo:
+            k = todo.pop()
+            if k in seen: continue
+            seen.append(k)
+            todo += [v[1] for v in self.mods[k].values() if v[0] == 'm']
+        return seen
+
+    def reach(self, m):
+        """leaves reachable from module m (each once)"""
+        return sorted({v[1] for k in self.below(m) for v in self.mods[k].values() if v[0] == 'p'})
+
+    def depth(self, root):
+        d, todo = {root: 0}, [root]
+        while todo:
+            k = todo.pop(0)
+            for v in self.mods[k].values():
+                if v[0] == 'm' and v[1] not in d:
+                    d[v[1]] = d[k] + 1; todo.append(v[1])
+        return d
+
+
+LINKS, PNAMES = ['sub', 'fc', 'block'], ['w', 'b', 'v', '_g']
+
+
+class TreeGen:
+    """events of a module-tree history (shared by the random and the scripted family)"""
+    def __init__(self, rng, P, leaves, flag):
+        self.rng, self.P, self.leaves, self.flag = rng, P, leaves, flag
+        self.T, self.evs, self.opts, self.root = TreeModel(), [], [], 0
+        self.stats = {}
+
+    def tree(self, line):
+        self.evs.append(('tree', line))
+
+    def build(self, d):
+        rng, T = self.rng, self.T
+        for m in range(d):
+            T.new(); self.tree('mod new')
+            if m:
+                name = rng.pick(LINKS); T.set(m, name, ('m', m - 1)); self.tree(f'mod set {m} {name} m{m - 1}')
+        self.root = d - 1
+        for l in self.leaves:
+            for _ in range(2 if rng.chance(.15) else 1):        # now and then the same parameter under two owners
+                if rng.chance(.85):
+                    m = rng.randrange(d); name = rng.pick(PNAMES)
+                    T.set(m, name, ('p', l)); self.tree(f'mod set {m} {name} p{l}')
+
+    def pick_nested(self):
+        """a module, three times out of four one that lies at depth >= 1 below the root (half of those at depth >= 2)"""
+        dp = self.T.depth(self.root)
+        deep = [m for m, k in dp.items() if k >= 2]; mid = [m for m, k in dp.items() if k >= 1]
+        r = self.rng.random()
+        if deep and r < .45: return self.rng.pick(deep), True
+        if mid and r < .8: return self.rng.pick(mid), False
+        return self.rng.randrange(len(self.T.mods)), False
+
+    def mutate(self, m=None):
+        rng, T = self.rng, self.T
+        if m is None: m, deep = self.pick_nested()
+        else: deep = self.T.depth(self.root).get(m, 0) >= 2
+        names = list(T.mods[m])
+        pn = [n for n in names if T.mods[m][n][0] == 'p']; mn = [n for n in names if T.mods[m][n][0] == 'm']
+        r = rng.random()
+        if r < .3:            # a parameter replaced (same name) or added (new name), by assignment or register_parameter
+            name = rng.pick(pn) if pn and rng.chance(.7) else rng.pick(PNAMES + LINKS)
+            l = rng.pick(self.leaves)
+            if rng.chance(.7): T.set(m, name, ('p', l)); self.tree(f'mod set {m} {name} p{l}')
+            else: T.reg(m, name, ('p', l)); self.tree(f'mod regp {m} {name} {l}')
+            kind = 'parameter replaced / added'
+        elif r < .55:         # a FRESH sub-module (holding a parameter of its own) in place of an old one, or added
+            k = T.new(); self.tree('mod new')
+            l = rng.pick(self.leaves); T.set(k, 'w', ('p', l)); self.tree(f'mod set {k} w p{l}')
+            name = rng.pick(mn) if mn and rng.chance(.7) else rng.pick(LINKS + PNAMES)
+            if rng.chance(.7): T.set(m, name, ('m', k)); self.tree(f'mod set {m} {name} m{k}')
+            else: T.reg(m, name, ('m', k)); self.tree(f'mod regm {m} {name} {k}')
+            kind = 'fresh sub-module replaced / added'
+        elif r < .68:         # an EXISTING module (with whatever hangs below it) attached here as well / instead
+            cands = [k for k in range(len(T.mods)) if m not in T.below(k)]
+            if not cands: return self.mutate(m)
+            k = rng.pick(cands)
+            name = rng.pick(mn) if mn and rng.chance(.5) else rng.pick(LINKS)
+            T.set(m, name, ('m', k)); self.tree(f'mod set {m} {name} m{k}')
+            kind = 'existing sub-tree attached'
+        elif r < .9 and names:  # removal
+            name = rng.pick(names)
+            T.set(m, name, None); self.tree(f'mod set {m} {name} {rng.pick(["none", "other"])}')
+            kind = 'attribute removed'
+        else:                 # a Sequential container over existing modules, attached here
+            cands = [k for k in range(len(T.mods)) if m not in T.below(k)]
+            if not cands: return self.mutate(m)
+            ks = [rng.pick(cands) for _ in range(rng.randint(1, 3))]
+            q = T.new(); self.tree(f'mod seq {show_ints(ks)}')
+            for i, k in enumerate(ks): T.reg(q, str(i), ('m', k))
+            name = rng.pick(mn) if mn and rng.chance(.5) else rng.pick(LINKS)
+            T.set(m, name, ('m', q)); self.tree(f'mod set {m} {name} m{q}')
+            kind = 'Sequential container attached'
+        self.count(kind + (' at depth >= 2' if deep else ''))
+
+    def count(self, k):
+        self.stats[k] = self.stats.get(k, 0) + 1
+
+    def touch(self, m=None):
+        """something that evaluates parameters() of a node once: the listing itself, num_params(), repr(), the construction of an
+        optimizer over it, a reset"""
+        rng, T = self.rng, self.T
+        if m is None: m = self.root if rng.chance(.4) else rng.randrange(len(T.mods))
+        r = rng.random()
+        if r < .3: self.tree(f'mod params {m}')
+        elif r < .45: self.tree(f't tree touch {m} num')
+        elif r < .6: self.tree(f't tree touch {m} repr')
+        elif r < .8 and T.reach(m):
+            self.tree(f't tree opt {m}'); self.opts.append(T.reach(m))
+        else: self.reset(m)
+
+    def reset(self, m=None, route=None):
+        rng, T = self.rng, self.T
+        if route is None: route = 'o' if self.opts and rng.chance(.3) else 'm'
+        if route == 'o' and self.opts:
+            o = rng.randrange(len(self.opts))
+            self.evs.append(('ozero', o, [l for l in self.opts[o] if self.flag[l]])); self.count('reset: Optimizer.zero_grad of an optimizer built over node.parameters()')
+        else:
+            if m is None: m = self.root if rng.chance(.5) else rng.randrange(len(T.mods))
+            self.evs.append(('mzero', m, [l for l in T.reach(m) if self.flag[l]])); self.count('reset: Module.zero_grad of a tree node')
+
+
+def _tree_leaves(rng, P, n):
+    shapes = [(3,), (2,), (2, 2), (), (2,)]
+    flag = {}
+    for _ in range(n):
+        sh = rng.pick(shapes)
+        l = P.add_leaf(sh, gen_dag.rand_data(rng, sh), rng.chance(.85)); flag[l] = P.nodes[P.owner[l]]['rg']
+    return list(flag), flag
+
+
+def gen_tree_history(rng, tier):
+    """random interleaving of graph building, backward calls, tree restructuring, evaluations of parameters() and resets"""
+    P = gen_dag.Prog()
+    leaves, flag = _tree_leaves(rng, P, rng.randint(3, 5))
+    G = TreeGen(rng, P, leaves, flag)
+    G.build(rng.randint(3, 4))
+    evs = G.evs
+    nev = len(evs) + rng.randint(8, 18 if tier == 'quick' else 60)
+    nbw = 0
+    while len(evs) < nev:
+        r = rng.random()
+        nt = len(P.tshape)
+        if r < 0.25 or nt < len(leaves) + 2:
+            before = len(P.nodes)
+            gen_dag.gen_op(rng, P, ALLOW)
+            if len(P.nodes) > before: evs.append(('op', len(P.nodes) - 1))
+        elif r < 0.5:
+            t = rng.randrange(nt)
+            evs.append(('bw', t, gen_dag.rand_data(rng, P.tshape[t], -2, 2))); nbw += 1
+        elif r < 0.65: G.mutate()
+        elif r < 0.77: G.touch()
+        elif r < 0.92: G.reset()
+        elif r < 0.96:
+            l = rng.pick(leaves); flag[l] = not flag[l]; evs.append(('setrg', l, int(flag[l])))
+        else:
+            evs.append(('zero', rng.pick(leaves)))
+    return P, evs, nbw, G.stats
+
+
+def gen_tree_scripted(rng):
+    """the fine-tuning pattern: a loss over ALL leaves; every ancestor evaluated once (each in its own way); something replaced /
+    removed / added on a node at depth >= 2; backward; reset at an ancestor; backward — and once more after a second change"""
+    P = gen_dag.Prog()
+    leaves, flag = _tree_leaves(rng, P, rng.randint(3, 5))
+    for l in leaves:            # all trainable: every backward call reaches every leaf
+        P.nodes[P.owner[l]]['rg'] = True; flag[l] = True
+    G = TreeGen(rng, P, leaves, flag)
+    d = rng.randint(3, 4)
+    G.build(d)
+    evs = G.evs
+    total = None
+    for l in leaves:
+        sq = P.add_op('mul', [l, l], [], [P.tshape[l]])[0]; evs.append(('op', P.owner[sq]))
+        s_ = P.add_op('sum', [sq], ['all', 0], [()])[0]; evs.append(('op', P.owner[s_]))
+        if total is None: total = s_
+        else:
+            total = P.add_op('add', [total, s_], [], [()])[0]; evs.append(('op', P.owner[total]))
+    nbw = 0
+    def bw():
+        nonlocal nbw
+        evs.append(('bw', total, gen_dag.rand_data(rng, (), -2, 2))); nbw += 1
+    if rng.chance(.5): bw()
+    for _ in range(rng.randint(1, 2)):
+        for m in rng.sample(range(d), rng.randint(1, d)):      # the ancestors (and any other node) evaluated once
+            G.touch(m)
+        if rng.chance(.3): G.touch(G.root)
+        deep = [m for m, k in G.T.depth(G.root).items() if k >= 2] or [0]
+        G.mutate(rng.pick(deep))
+        bw()
+        G.reset(G.root if rng.chance(.7) else None)
+        bw()
+        if rng.chance(.5):
+            G.reset(); bw()
+    return P, evs, nbw, G.stats
+
+
+def to_lines(P, evs, tree=False, pos=None):
+    """interleave creation lines and events; after every event (but a tree operation) query all gradients. `pos` (a list) receives per
+    event (index of its first line, index of the first gradient query after it or None)"""
     leaf_lines, _ = P.lines([k for k, n in enumerate(P.nodes) if n['kind'] == 'leaf'])
-    out = list(leaf_lines) + ['t ctx new rg']
+    out = list(leaf_lines)
+    if tree:      # every float leaf is an nn.Parameter, known to the module world as p<k> in creation order
+        out += [f"mod param {int(np.prod(n['shape'])) if n['shape'] else 1} {int(n['rg'])}" for n in P.nodes if n['kind'] == 'leaf' and n.get('dt', 'f64') == 'f64']
+    out += ['t ctx new rg']
     created = sum(len(n['outs']) for n in P.nodes if n['kind'] == 'leaf')
     for e in evs:
-        if e[0] == 'op':
+        if pos is not None: pos.append([len(out), None])
+        if e[0] == 'tree':
+            out.append(e[1]); continue
+        if e[0] in ('mzero', 'ozero'):
+            out.append(f'mod zero {e[1]}' if e[0] == 'mzero' else f't tree ozero {e[1]}')
+            out += [f't zero {l}' for l in e[2]]
+        elif e[0] == 'op':
             nd = P.nodes[e[1]]
             out.append(' '.join(['t op', nd['name'], show_ints(nd['ins'])] + [str(a) for a in nd['args']]))
             created += len(nd['outs'])
@@ -134,8 +370,21 @@ def to_lines(P, evs):
             out.append(f't setrg {e[1]} {e[2]}')
         else:
             out.append(f't ctx {e[1]} 0')
+        if pos is not None: pos[-1][1] = len(out)
         out += [f't grad {k}' for k in range(created)]
     return out
+
+
+def to_model(line):
+    """operations on the implementation's module objects that have no counterpart in the models (printing a module, building an optimizer,
+    Optimizer.zero_grad — whose effect follows as `t zero` lines) must leave the engine alone: the model answers with its grad modes"""
+    return 't modes' if line.startswith('t tree ') else line
+
+
+def extract():
+    """the decision logic of Tensor.backward is re-read from tensor.py (Generated/EngineLogic.lean); the src_* theorems are re-checked by the build"""
+    import engine_logic
+    return engine_logic.write()[0]
 
 
 def cases(rng, tier):
@@ -150,6 +399,9 @@ def cases(rng, tier):
         out.append(mk(*gen_repeat(rng, k)))
     for _ in range(6 if tier == 'quick' else 120):
         out.append(mk(*gen_frozen_at_birth(rng)))
+    for k in range(70 if tier == 'quick' else 1500):
+        P, evs, nbw, stats = gen_tree_history(rng, tier) if k % 5 < 3 else gen_tree_scripted(rng)
+        out.append(mk(P, evs, nbw, tree=True)); out[-1]['stats'] = stats
     for P, evs in corpus():
         out.append(mk(P, evs, 2))
     if tier == 'thorough':
@@ -181,9 +433,9 @@ def cases(rng, tier):
     return out
 
 
-def mk(P, evs, nbw):
-    lines = to_lines(P, evs)
-    return {'P': P, 'evs': evs, 'nbw': nbw, 'lines': lines, 'desc': ' ; '.join(l for l in lines if not l.startswith('t grad'))[:900]}
+def mk(P, evs, nbw, tree=False):
+    lines = to_lines(P, evs, tree)
+    return {'P': P, 'evs': evs, 'nbw': nbw, 'lines': lines, 'tree': tree, 'desc': ' ; '.join(l for l in lines if not l.startswith('t grad'))[:900]}
 
 
 def corpus():
@@ -200,8 +452,106 @@ def corpus():
     yield P, [('op', 1), ('retain', y), ('op', 2), ('bw', z, [1.0]), ('op', 3), ('bw', w, [3.0]), ('bw', y, [1., -1.])]
 
 
+class TreeImpl(tprog.Impl):
+    """tensor programs whose float leaves are nn.Parameter objects living in a tree of real nn.Module objects: `mod …` lines (the C12
+    protocol) act on the tree, `t tree …` lines evaluate / reset it through the public API; the `t zero` lines that follow a tree
+    reset say what it has to do and are NOT executed (the tree reset alone must have done it)"""
+    def __init__(self):
+        super().__init__()
+        self.tmods, self.tpars, self.topts, self.fleaves, self.skip = [], [], [], [], 0
+
+    def _modes(self):
+        return f'{int(self.tm.gradient__)}{int(self.tm.retain_grads__)}'
+
+    def _reach(self, m, seen, out):
+        if id(m) in seen: return out
+        seen.add(id(m))
+        for v in vars(m).values():
+            if isinstance(v, self.nn.Parameter): out[id(v)] = v
+            elif isinstance(v, self.nn.Module): self._reach(v, seen, out)
+        return out
+
+    def _tree_reset(self, i, lines, obj, params):
+        """params: what the reset has to reach (walk over attributes now / the list the optimizer was given)"""
+        n = 0
+        while i + 1 + n < len(lines) and lines[i + 1 + n].startswith('t zero '): n += 1
+        told = sorted(int(l.split(' ')[2]) for l in lines[i + 1: i + 1 + n])
+        mine = sorted(k for k, x in enumerate(self.ts) if x is not None and any(x is p for p in params) and x.requires_grad)
+        if told != mine: return f'generator-disagrees told={told} reachable={mine}'
+        obj.zero_grad()
+        self.skip = n
+        return None
+
+    def run_at(self, i, lines):
+        line = lines[i]
+        t = line.split(' ')
+        nn = self.nn
+        if t[0] == 'mod':
+            t = t[1:]
+            if t[0] == 'new':
+                self.tmods.append(nn.Module()); return f'm{len(self.tmods) - 1}'
+            if t[0] == 'param':
+                x = self.fleaves[len(self.tpars)]
+                assert isinstance(x, nn.Parameter) and x.size == int(t[1])
+                self.tpars.append(x); return f'p{len(self.tpars) - 1}'
+            if t[0] == 'set':
+                v = t[3]
+                val = None if v == 'none' else 3.14 if v == 'other' else self.tmods[int(v[1:])] if v[0] == 'm' else self.tpars[int(v[1:])]
+                setattr(self.tmods[int(t[1])], t[2], val); return 'ok'
+            if t[0] == 'regm':
+                self.tmods[int(t[1])].register_module(t[2], self.tmods[int(t[3])]); return 'ok'
+            if t[0] == 'regp':
+                self.tmods[int(t[1])].register_parameter(t[2], self.tpars[int(t[3])]); return 'ok'
+            if t[0] == 'seq':
+                self.tmods.append(nn.Sequential(*[self.tmods[k] for k in common.parse_ints(t[1])])); return f'm{len(self.tmods) - 1}'
+            m = self.tmods[int(t[1])]
+            if t[0] == 'params':
+                return show_ints([next(k for k, q in enumerate(self.tpars) if q is p) for p in m.parameters()])
+            if t[0] == 'zero':
+                return self._tree_reset(i, lines, m, list(self._reach(m, set(), {}).values())) or 'ok'
+            return 'bad-op'
+        if t[1] == 'tree':
+            if t[2] == 'touch':
+                m = self.tmods[int(t[3])]
+                m.num_params() if t[4] == 'num' else repr(m)
+            elif t[2] == 'opt':
+                from synapgrad import optim
+                ps = self.tmods[int(t[3])].parameters()
+                self.topts.append((optim.SGD(ps, lr=0.1) if len(self.topts) % 2 == 0 else optim.Adam(ps), list(ps)))
+            elif t[2] == 'ozero':
+                o, ps = self.topts[int(t[3])]
+                bad = self._tree_reset(i, lines, o, ps)
+                if bad: return bad
+            return self._modes()
+        if t[1] == 'zero' and self.skip > 0:
+            self.skip -= 1; return 'ok'
+        r = self.run(line)
+        if t[1] == 'leaf' and t[2] == 'f64':
+            x = self.ts[-1]
+            if not isinstance(x, nn.Parameter):        # in a tree history every float leaf is a Parameter
+                from synapgrad import optim
+                x = nn.Parameter(x.data, requires_grad=x.requires_grad); k = len(self.ts) - 1
+                self.ts[k] = x
+                self.leaf_opt[k] = optim.SGD([x], lr=0.1)
+                mm = nn.Module(); mm.register_parameter('w', x); self.leaf_mod[k] = mm
+            self.fleaves.append(x)
+        return r
+
+
+def run_tree(lines):
+    im = TreeImpl()
+    try:
+        return [outcome(lambda: im.run_at(i, lines)) for i in range(len(lines))]
+    finally:
+        im.close()
+
+
+def _run(c):
+    return run_tree(c['lines']) if c.get('tree') else tprog.run_program(c['lines'])
+
+
 def impl(c):
-    return tprog.run_program(c['lines'])
+    return _run(c)
 
 
 def compare(c, mo, io):
@@ -221,6 +571,14 @@ def distribution(cases):
             d[k] = d.get(k, 0) + 1
         for e in c['evs']:
             d[e[0]] = d.get(e[0], 0) + 1
+        if c.get('tree'):
+            d['module-tree histories'] = d.get('module-tree histories', 0) + 1
+            for k, v in c.get('stats', {}).items():
+                d['tree: ' + k] = d.get('tree: ' + k, 0) + v
+            for e in c['evs']:
+                if e[0] == 'tree' and e[1].startswith(('t tree', 'mod params')):
+                    k = 'tree: parameters() evaluated through ' + (e[1].split(' ')[4] if 'touch' in e[1] else 'optimizer construction' if 'opt' in e[1] else 'parameters()')
+                    d[k] = d.get(k, 0) + 1
     return d
 
 
@@ -252,21 +610,32 @@ def oracle(c):
     P, evs = c['P'], c['evs']
     leaves = [n['outs'][0] for n in P.nodes if n['kind'] == 'leaf']
     rg = {n['outs'][0]: n['rg'] for n in P.nodes if n['kind'] == 'leaf'}
-    io = tprog.run_program(c['lines'])
-    if any(x == 'rejected' for x, l in zip(io, c['lines']) if l.startswith('t op')):
+    epos = []
+    lines = to_lines(P, evs, c.get('tree', False), epos)
+    io = _run(dict(c, lines=lines))
+    if any(x == 'rejected' for x, l in zip(io, lines) if l.startswith('t op')):
         return None
+    if any(str(x).startswith('generator-disagrees') for x in io):
+        return None          # the harness's own bookkeeping of the tree is off: nothing can be concluded about the property
     expect = {l: None for l in leaves}
     built = []
-    pos = sum(1 for n in P.nodes if n['kind'] == 'leaf') + 1
     created = len(leaves)
+    hist = []          # the tree operations so far, for the message
     for ei, e in enumerate(evs):
-        line_out = io[pos]
+        first, gpos = epos[ei]
+        line_out = io[first]
+        if e[0] == 'tree':
+            hist.append(e[1]); continue
         if e[0] == 'op':
             built.append(e[1]); created += len(P.nodes[e[1]]['outs'])
         elif e[0] == 'setrg':
             built.append(('setrg', e[1], e[2])); rg[e[1]] = bool(e[2])
         elif e[0] == 'zero':
             expect[e[1]] = np.zeros(P.tshape[e[1]])
+        elif e[0] in ('mzero', 'ozero'):
+            # Module.zero_grad of a tree node / Optimizer.zero_grad: every parameter the node holds now (the optimizer was given) that requires grad
+            for l in e[2]: expect[l] = np.zeros(P.tshape[l])
+            hist.append(lines[first])
         elif e[0] == 'bw' and len(e) > 3 and line_out != 'rejected':
             return {'key': {'cls': 'bad-gradient-accepted'}, 'case': _strip(c, ei + 1), 'what': f'backward accepted an upstream gradient of shape {e[3]} for a tensor of shape {P.tshape[e[1]]}'}
         elif e[0] == 'bw' and line_out != 'rejected':
@@ -277,24 +646,24 @@ def oracle(c):
             for l in leaves:
                 if d[l] is not None and rg[l]:
                     expect[l] = d[l] if expect[l] is None else expect[l] + d[l]
-        grads = io[pos + 1: pos + 1 + created]
+        grads = io[gpos: gpos + created]
+        ctx = f' [module tree so far: {" ; ".join(hist)}]' if hist else ''
         for l in leaves:
             s = grads[l]
             got = None if s == '-' else tprog.parse_arr(s)
             want = expect[l]
             if (got is None) != (want is None) and not (got is not None and want is None and not np.any(got)):
-                return {'key': {'cls': 'presence'}, 'case': _strip(c, ei + 1), 'what': f'after event {ei} {e[:2]} leaf t{l} grad is {got}, expected {want}'}
+                return {'key': {'cls': 'presence'}, 'case': _strip(c, ei + 1), 'what': f'after event {ei} {e[:2]} leaf t{l} grad is {got}, expected {want}{ctx}'}
             if got is not None and want is not None and not np.array_equal(np.isnan(got), np.isnan(want)):
-                return {'key': {'cls': 'sum'}, 'case': _strip(c, ei + 1), 'what': f'after event {ei} {e[:2]} leaf t{l} holds {got.tolist()}, the sum of the per-call gradients since its last reset is {want.tolist()}'}
+                return {'key': {'cls': 'sum'}, 'case': _strip(c, ei + 1), 'what': f'after event {ei} {e[:2]} leaf t{l} holds {got.tolist()}, the sum of the per-call gradients since its last reset is {want.tolist()}{ctx}'}
             fin = None if got is None or want is None else np.isfinite(got) & np.isfinite(want)
             if fin is not None and (not np.array_equal(got[~fin & ~np.isnan(got)], want[~fin & ~np.isnan(want)]) or (fin.any() and np.abs(got[fin] - want[fin]).max() > 1e-9 * (1 + np.abs(want[fin]).max()))):
-                return {'key': {'cls': 'sum'}, 'case': _strip(c, ei + 1), 'what': f'after event {ei} {e[:2]} leaf t{l} holds {got.tolist()}, the sum of the per-call gradients since its last reset is {want.tolist()}'}
-        pos += 1 + created
+                return {'key': {'cls': 'sum'}, 'case': _strip(c, ei + 1), 'what': f'after event {ei} {e[:2]} leaf t{l} holds {got.tolist()}, the sum of the per-call gradients since its last reset is {want.tolist()}{ctx}'}
     return None
 
 
 def _strip(c, nev=None):
-    return {'nodes': c['P'].nodes, 'tshape': c['P'].tshape, 'evs': c['evs'][:nev] if nev else c['evs']}
+    return {'nodes': c['P'].nodes, 'tshape': c['P'].tshape, 'evs': c['evs'][:nev] if nev else c['evs'], 'tree': bool(c.get('tree'))}
 
 
 def _unstrip(d):
@@ -305,13 +674,17 @@ def _unstrip(d):
         else:
             P.add_op(nd['name'], nd['ins'], nd['args'], [tuple(d['tshape'][o]) for o in nd['outs']])
     evs = [tuple(e) for e in d['evs']]
-    return mk(P, evs, sum(1 for e in evs if e[0] == 'bw'))
+    return mk(P, evs, sum(1 for e in evs if e[0] == 'bw'), tree=bool(d.get('tree')))
 
 
 def search(rng, tier):
-    for _ in range(80):
-        P, evs, nbw = gen_history(rng, 'quick')
-        f = oracle(mk(P, evs, nbw))
+    for k in range(120):
+        if k % 3 == 2:
+            P, evs, nbw, _ = gen_tree_history(rng, 'quick') if k % 2 else gen_tree_scripted(rng)
+            f = oracle(mk(P, evs, nbw, tree=True))
+        else:
+            P, evs, nbw = gen_history(rng, 'quick')
+            f = oracle(mk(P, evs, nbw))
         if f: yield f
 
 
